@@ -115,6 +115,8 @@ class Session:
 
 def gen_script(rng, quick):
     ops = []
+    if rng.random() < 0.25:
+        ops.append(["legacy"])
     if rng.random() < 0.5:
         ops.append(["sub", sorted(rng.sample(range(6), rng.randrange(1, 6)))])
     n = rng.randrange(3, 10 if quick else 16)
@@ -138,8 +140,10 @@ def gen_script(rng, quick):
             # a large delayed response while button events arrive at arbitrary loop-iteration boundaries
             ops.append(["sub", [6]])
             ops.append(["snapshot", rng.choice([66000, 70000, 140000] if quick else [66000, 70000, 140000, 300000]), rng.choice([0, 0.25]), rng.choice([2, 5])])
-        else:
+        elif k < 0.985:
             ops.append(["reverify"])
+        else:
+            ops.append(["bad_request"])
     return ops
 
 
@@ -155,6 +159,7 @@ def run_script(ctx: Ctx, hc, hp, ops, mode, seed):
     from rig import Rig
 
     rng = random.Random(seed)
+    legacy = any(o[0] == "legacy" for o in ops)
     cipher_cls = ref.Mock if mode == "mock" else ref.Real
     rig = Rig()
     patches = []
@@ -179,6 +184,8 @@ def run_script(ctx: Ctx, hc, hp, ops, mode, seed):
         marks = {}
 
         def send(plain, kind):
+            if tr.closed:  # asyncio delivers nothing after close(); the controller has gone away
+                return
             expected.append(kind)
             data = sess.wrap(rng, plain)
             cuts = sorted(rng.sample(range(1, len(data)), min(len(data) - 1, rng.choice([0, 0, 1, 3])))) if len(data) > 1 else []
@@ -187,6 +194,14 @@ def run_script(ctx: Ctx, hc, hp, ops, mode, seed):
                 proto.data_received(data[a:b])
 
         def verify():
+            if tr.closed:
+                return
+            if legacy:
+                # a state file written before identifier bytes were stored: pair-verify back-fills them
+                # and schedules a save from inside the M3 handler
+                from uuid import UUID as _U
+
+                driver.state.uuid_to_bytes.pop(_U(IDENT.decode()), None)
             v = pv_client.Verifier(IDENT, ltsk)
             n0 = len(split_all(tr, marks, shared_keys, cipher_cls)[0])
             send(pv_client.http_post("/pair-verify", v.m1()), "pv-m2")
@@ -214,6 +229,8 @@ def run_script(ctx: Ctx, hc, hp, ops, mode, seed):
                     # steer the size: observe the size of this response, then shorten one value so that the
                     # next response to the same read has exactly op[1] bytes
                     for _ in range(4):
+                        if tr.closed:
+                            break
                         send(req, "characteristics")
                         msgs_now = split_all(tr, marks, shared_keys, cipher_cls)[0]
                         last = [m for m in msgs_now if m[0] == "response"][-1]
@@ -254,6 +271,21 @@ def run_script(ctx: Ctx, hc, hp, ops, mode, seed):
                     rig.loop.hook = None
                 elif k == "reverify":
                     verify()
+                elif k == "bad_request":
+                    # a correctly encrypted request that the HTTP parser rejects
+                    bad = rng.choice([
+                        b"GET /accessories HTTP/1.1\r\nHost: a\r\nContent-Length: twelve\r\n\r\n",
+                        b"\x00\x01garbage\r\n\r\n",
+                        b"PUT /characteristics HTTP/1.1\r\nHost: a\r\nContent-Length: 5\r\nContent-Length: 7\r\n\r\n",
+                    ])
+                    if not tr.closed:
+                        data = sess.wrap(rng, bad)
+                        proto.data_received(data)
+                        if not tr.closed:
+                            # the parser accepted it after all: then it is a request and is owed one response
+                            expected.append("any")
+                elif k == "legacy":
+                    pass
                 rig.loop.settle()
         except Exception as ex:  # noqa: BLE001  the reference controller could not go on
             abort = f"{type(ex).__name__}: {ex}"[:200]
@@ -460,6 +492,10 @@ def run(ctx: Ctx):
     scripts.append(([["sub", [0, 1, 2, 3, 4]]] + [["appset", i, 256] for i in range(5)] + [["advance", 1.0]], "mock"))
     scripts.append(([["sub", [0]], ["snapshot", 2048, 1.0, 0], ["appset", 0, 10], ["advance", 1.0], ["get_acc"]], "real"))
     scripts.append(([["reverify"], ["get_acc"], ["reverify"], ["get", [0, 1]]], "mock"))
+    scripts.append(([["legacy"], ["get_acc"], ["sub", [0]], ["appset", 0, 20], ["advance", 1.0]], "real"))
+    scripts.append(([["legacy"], ["get", [0]], ["reverify"], ["get_acc"]], "mock"))
+    scripts.append(([["get_acc"], ["bad_request"], ["get_acc"]], "real"))
+    scripts.append(([["sub", [0]], ["appset", 0, 5], ["bad_request"], ["advance", 1.0]], "mock"))
     scripts.append(([["sub", [6]], ["snapshot", 70000, 0.25, 5], ["get", [0]]], "real"))
     scripts.append(([["sub", [0, 6]], ["appset", 0, 40], ["snapshot", 140000, 0, 5], ["get_acc"]], "real"))
     for _ in range(ctx.n(200, 3000)):
